@@ -134,7 +134,7 @@ func (ti *textIndex) real(l errors.Location) string {
 }
 
 func fullLoc(l errors.Location) string { return fmt.Sprintf("%d.%d.%d", l.Line, l.Column, l.Index) }
-func fullSpan(s errors.Span) string   { return fullLoc(s.Start) + "-" + fullLoc(s.End) }
+func fullSpan(s errors.Span) string    { return fullLoc(s.Start) + "-" + fullLoc(s.End) }
 
 func isZeroSpan(s errors.Span) bool {
 	z := errors.Location{}
@@ -294,6 +294,9 @@ func totalLine(line string) string {
 			defer func() {
 				if r := recover(); r != nil {
 					class = "PANIC:analyze:" + hexs(firstLine(fmt.Sprint(r)))
+					if os.Getenv("VERIF_TRACE") != "" {
+						os.Stderr.Write(debug.Stack())
+					}
 				}
 			}()
 			_, diags, syn := hms.Analyze(hms.InputProgram{ProgramText: text, Filename: c.file},
